@@ -6,7 +6,11 @@ import (
 	"encoding/hex"
 	"fmt"
 	"math/rand"
+	"reflect"
 	"sort"
+
+	"github.com/protolambda/zrnt/eth2/beacon/common"
+	"github.com/protolambda/ztyp/tree"
 
 	"verifharness/internal/hreg"
 )
@@ -244,6 +248,51 @@ func (t *Ty) elemFixed() (uint64, bool) {
 	return t.Elem.FixedLen()
 }
 
+// sizeVectors allocates, inside a Go zero value, the slices that stand for SSZ vectors (a nil slice is not a value of
+// a vector type); everything else stays as Go's zero value, in particular nil bitvector byte slices, which the
+// code base documents as "the default bits".
+func sizeVectors(v reflect.Value, t *Ty) {
+	for v.Kind() == reflect.Ptr {
+		if v.IsNil() {
+			return
+		}
+		v = v.Elem()
+	}
+	switch t.Kind {
+	case KContainer:
+		if v.Kind() == reflect.Struct && v.NumField() == len(t.Fields) {
+			for i := range t.Fields {
+				sizeVectors(v.Field(i), t.Fields[i].T)
+			}
+		}
+	case KVector:
+		if v.Kind() == reflect.Slice && v.Len() == 0 && v.CanSet() && t.N < 1<<22 {
+			v.Set(reflect.MakeSlice(v.Type(), int(t.N), int(t.N)))
+		}
+		if v.Kind() == reflect.Slice || v.Kind() == reflect.Array {
+			if t.Elem.Kind == KContainer || t.Elem.Kind == KVector {
+				for i := 0; i < v.Len(); i++ {
+					sizeVectors(v.Index(i), t.Elem)
+				}
+			}
+		}
+	}
+}
+
+// zeroValueRoot: HashTreeRoot of the Go zero value of the type, never decoded from bytes.
+func zeroValueRoot(e Entry, spec *common.Spec, t *Ty) string {
+	return hreg.Guard(func() string {
+		obj := e.New()
+		sizeVectors(reflect.ValueOf(obj), t)
+		o := wrap(spec, obj)
+		if o == nil {
+			return "no-ssz-interface"
+		}
+		r := o.HashTreeRoot(tree.GetHashFn())
+		return hex.EncodeToString(r[:])
+	})
+}
+
 func gen(o hreg.Opts, w *bufio.Writer) error {
 	rng := o.Rand()
 	ps := presets(rng)
@@ -261,6 +310,12 @@ func gen(o hreg.Opts, w *bufio.Writer) error {
 	}
 	fmt.Fprintf(w, "keys %s\n", joinKeys())
 	em := &emitter{w: w, o: o}
+	oddTok := ""
+	for _, p := range ps {
+		if p.name == "odd" {
+			oddTok = p.tok
+		}
+	}
 	nRand := o.Pick(4, 60)
 	budget := int64(o.Pick(1500, 6000))
 	bigBudget := int64(o.Pick(6000, 100000))
@@ -271,12 +326,19 @@ func gen(o hreg.Opts, w *bufio.Writer) error {
 			if p.name == "xdata" && !xdataTypes[e.Name] {
 				continue
 			}
+			if p.name == "chunks" && oddTok != "" && RawSchemas[e.Name+" "+p.tok] == RawSchemas[e.Name+" "+oddTok] {
+				continue // the `chunks` preset only changes some lengths of the `odd` preset: same schema, nothing new
+			}
 			t := schemas[e.Name+" "+p.tok]
 			em.cur = t
 			if t == nil {
 				// the specification schema has no such entry: the model answers bad-op, the Go type answers something else
 				em.line("probe", e.Name, p.name, p.tok, nil)
 				continue
+			}
+			if spec, err := specOfToken(p.tok); err == nil && t.MinSize() < 5_000_000 {
+				fmt.Fprintf(w, "z zero@%s %s %s %s\n", p.name, e.Name, p.tok, zeroValueRoot(e, spec, t))
+				o.Stats.Add("label", "z-zero")
 			}
 			min := int64(t.MinSize())
 			heavy := min > 40000 // e.g. mainnet states: megabytes of mandatory vectors
